@@ -7,15 +7,20 @@ TInit == CInit /\ cell = 0 /\ CursorInit
 TrCall == IsEvent("call") /\ Consume /\ Call(Ev.t, Ev.op) /\ UNCHANGED cell
 DoLin == \E t \in Threads : Lin(t) /\ UNCHANGED <<l, cell>>
 DoSpurious == \E t \in Threads : Spurious(t) /\ UNCHANGED <<l, cell>>
-TrRet == IsEvent("ret") /\ Consume /\ Ev.res = 1 /\ Ret(Ev.t) /\ UNCHANGED cell
+TrRet == IsEvent("ret") /\ Consume /\ pend[Ev.t].st = "done" /\ Ev.res = pend[Ev.t].res /\ Ret(Ev.t) /\ UNCHANGED cell
 (* access to the protected data: only by the mutex owner, and it sees the previous owner's write *)
 TrCs == /\ IsEvent("cs") /\ Consume /\ owner = Ev.t /\ pend[Ev.t].st = "idle" /\ Ev.rd = cell
         /\ cell' = Ev.wr /\ UNCHANGED cvars
 (* watchdog expiry: the thread is still inside wait. Legal only if nobody had to wake it. *)
 TrStuck == IsEvent("Stuck") /\ Consume /\ MayBeStuck(Ev.t) /\ UNCHANGED <<cvars, cell>>
+(* trylock kept failing for seconds: legal only if somebody may legitimately hold the mutex - a thread whose only *)
+(* claim to it is a wait call that has not released it yet does not count (wait releases the mutex as it blocks)    *)
+TrTryStarved == /\ IsEvent("TryStarved") /\ Consume
+                /\ \E u \in Threads : owner = u /\ ~(pend[u].st = "called" /\ pend[u].op = "wait")
+                /\ UNCHANGED <<cvars, cell>>
 TrEpoch == /\ IsEvent("Epoch") /\ Consume /\ \A t \in Threads : pend[t].st = "idle"
            /\ owner = 0 /\ waiting = {} /\ woken = {}
            /\ cell' = (IF HasField(Ev, "cell") THEN Ev.cell ELSE cell) /\ UNCHANGED cvars
-TNext == TrCall \/ DoLin \/ DoSpurious \/ TrRet \/ TrCs \/ TrStuck \/ TrEpoch
+TNext == TrCall \/ DoLin \/ DoSpurious \/ TrRet \/ TrCs \/ TrStuck \/ TrTryStarved \/ TrEpoch
 TSpec == TInit /\ [][TNext]_tv
 ====
